@@ -141,7 +141,11 @@ class MystReferenceResolver(ReferencesResolver):
                 MystWarnings.XREF_MISSING,
                 location=node,
             )
-            node.replace_self(node[0].deepcopy())
+            inner_node = node[0].deepcopy()
+            if not inner_node.children:
+                # a link without text: show the target, so that something is rendered
+                inner_node.append(nodes.literal(ref_docname, ref_docname))
+            node.replace_self(inner_node)
             return
 
         targetid = ""
